@@ -78,6 +78,15 @@ class Gen:
         self.meta[ln] = [{'tag': tag, 'expect': expect}] + [{'tag': t, 'expect': x} for _e, t, x in extra]
         return ln
 
+    def multi(self, exprs, tag, indent=''):
+        """one line PRINT e1; e2; ...: the debugger is asked every ei while stopped
+        there; probe i is compared with the i-th value the PRINT hands over"""
+        self.emit(indent + 'PRINT ' + '; '.join(exprs))
+        ln = len(self.lines)
+        self.stops[ln] = list(exprs)
+        self.meta[ln] = [{'tag': tag, 'expect': 'value', 'ref': i} for i in range(len(exprs))]
+        return ln
+
 
 def arith_probes(g, frame, pool, count, start):
     """operator probes over the variables of `pool`: [(expr, type, tagpart)];
@@ -206,6 +215,10 @@ def program(k):
     g.emit('na% = 3')
     g.emit('DIM da(1 TO na%) AS INTEGER')
     g.emit('DIM db&(0 TO na%, 1 TO 2)')
+    g.emit(f'DIM qb({b2[0][0]} TO {b2[0][1]}, {b2[1][0]} TO {b2[1][1]}) AS pt')
+    g.emit('DIM qc(' + ', '.join(f'{l} TO {u}' for l, u in b3) + ') AS rect')
+    g.emit('DIM lpa(1 TO 2) AS LONG')
+    g.emit('DIM lpr AS pt')
     # ---- values
     V = {}
 
@@ -255,6 +268,26 @@ def program(k):
     g.emit(f'da(2) = {g.val(1)}')
     g.emit(f'db&(3, 1) = {g.val(2)}')
     g.emit(f'db&(0, 2) = {g.val(2)}')
+    # every element of the record arrays gets its own values
+    sd = r.randint(1, 9)
+    g.emit(f'FOR fi% = {b2[0][0]} TO {b2[0][1]}')
+    g.emit(f'FOR fj% = {b2[1][0]} TO {b2[1][1]}')
+    g.emit(f'qb(fi%, fj%).x = fi% * 10 + fj% + {sd}')
+    g.emit(f'qb(fi%, fj%).y = fi% * 1000 + fj% * 10 + {sd}')
+    g.emit('NEXT fj%')
+    g.emit('NEXT fi%')
+    g.emit(f'FOR fi% = {b3[0][0]} TO {b3[0][1]}')
+    g.emit(f'FOR fj% = {b3[1][0]} TO {b3[1][1]}')
+    g.emit(f'FOR fk% = {b3[2][0]} TO {b3[2][1]}')
+    g.emit(f'qc(fi%, fj%, fk%).a.y = fi% * 10000 + fj% * 100 + fk% + {sd}')
+    g.emit(f'qc(fi%, fj%, fk%).s = fi% * 4 + fj% * 2 + fk% + 0.5')
+    g.emit('NEXT fk%')
+    g.emit('NEXT fj%')
+    g.emit('NEXT fi%')
+    # main-program variables whose names are CONSTs inside SUB sa
+    g.emit(f'lim% = {g.val(1)}')
+    g.emit(f'tag$ = "main{sd}"')
+    g.emit(f'ixc% = {b1[1]}')
 
     # ---- probes in main, before the calls
     def main_probes(phase):
@@ -350,9 +383,31 @@ def program(k):
         g.flush(10 if phase == 1 else 7, '', (errs + errs)[w:w + 6] if phase == 1 else ())
 
     main_probes(1)
+    rng2 = lambda b: range(b[0], b[1] + 1)
+    g.multi([f'qb({i}, {j}).y' for i in rng2(b2[0]) for j in rng2(b2[1])],
+            'elemfield,frame=main1,scope=local,rank=2,ty=LONG,first=no,all-indices=yes')
+    g.multi([f'qb({i}, {j}).x' for i in rng2(b2[0]) for j in rng2(b2[1])],
+            'elemfield,frame=main1,scope=local,rank=2,ty=INTEGER,first=yes,all-indices=yes')
+    g.multi([f'qc({i}, {j}, {l}).a.y' for i in rng2(b3[0]) for j in rng2(b3[1]) for l in rng2(b3[2])],
+            'elemfield,frame=main1,scope=local,rank=3,nested=yes,ty=LONG,first=no,all-indices=yes')
+    g.multi([f'qc({i}, {j}, {l}).s' for i in rng2(b3[0]) for j in rng2(b3[1]) for l in rng2(b3[2])],
+            'elemfield,frame=main1,scope=local,rank=3,nested=no,ty=SINGLE,first=no,all-indices=yes')
+    g.multi(['lim%', 'tag$', 'aa%(ixc%)', 'lim% + 1', 'tag$ + "z"'],
+            'scalar,frame=main1,scope=local,decl=suffix,same-name-as-procedure-const=yes')
+    g.emit('FOR lp% = 1 TO 3')
+    g.emit('lpa(1) = lpa(1) + lp% * 7')
+    g.emit('lpa(2) = lpa(1) * 2')
+    g.emit('lpr.y = lpr.y + lp% * 1000')
+    g.emit('lpr.nm = lpr.nm + "i"')
+    g.emit(f'qb({b2[0][1]}, {b2[1][0]}).y = lp%')
+    g.multi(['lpa(1)', 'lpa(2)', 'lpr.y', 'lpr.nm', f'qb({b2[0][1]}, {b2[1][0]}).y', 'lp%'],
+            'loop,frame=main1,same-stop-address=yes,changed-between-stops=yes')
+    g.emit('NEXT lp%')
     byval_expr = 'vda + 1'
     g.emit(f'CALL sa(via, 5, aa%({b1[1]}), pa.y, {byval_expr}, vta, {depth})')
     main_probes(2)
+    g.multi(['lim%', 'tag$', 'aa%(ixc%)'],
+            'scalar,frame=main2,scope=local,decl=suffix,same-name-as-procedure-const=yes')
     g.emit('vla = fa&(eia%, 2.5)')
     g.probe('vla', 'scalar,frame=main3,scope=local,decl=as,ty=LONG,after=function')
     if trap_end:
@@ -375,6 +430,9 @@ def program(k):
     lca = g.val(1)
     g.emit(f'  CONST lca% = {lca}')
     g.emit('  CONST lcs$ = "loc"')
+    g.emit(f'  CONST lim% = {g.val(1)}')
+    g.emit('  CONST tag$ = "const"')
+    g.emit(f'  CONST ixc% = {b1[0]}')
     g.emit(f'  CONST cla& = {g.val(2)}')
     g.emit('  DIM lq AS pt')
     g.emit('  DIM lar(0 TO 2) AS LONG')
